@@ -211,7 +211,8 @@ func c13Loop(c *Ctx) {
 	its := []it{{10 * time.Second, 3 * time.Second}, {10 * time.Second, 10 * time.Second}, {3 * time.Second, 10 * time.Second}}
 	maxLen := 3
 	if c.Thorough() {
-		maxLen = 4
+		maxLen = 5
+		its = append(its, it{10 * time.Second, 13 * time.Second}, it{5 * time.Second, 5*time.Second + 1})
 	}
 	kinds := []string{"ok", "late", "never", "fail"}
 	var seqs [][]string
